@@ -74,3 +74,14 @@ Proof.
   pose proof (stamped_now_not_stale _ n x' Hok' Hx' Hr') as P.
   destruct (node_kind x') as [[]|]; try done; by apply P.
 Qed.
+
+(* ---- the heap's counter and lower bound (debug builds) *)
+From Incr.Proofs Require Import RchMin FrameRchMin.
+
+Lemma history_rch_extra fuel max_height ops :
+  Forall (fun e => rch_inv e.2 /\ rch_extra e.2) (run_history fuel max_height true ops).
+Proof.
+  unfold run_history.
+  pose proof (run_rch_extra fuel ops (IState []) (init_state max_height true) eq_refl (rch_inv_init _ _) (rch_extra_init _ _)) as H.
+  eapply Forall_impl; [|exact H]. intros e (H1 & H2 & _). done.
+Qed.
